@@ -3,6 +3,7 @@ import ast
 from ..core import Result
 from ..pm import AnalysisError, unparse
 from ..paths import ipaths, paths, annotate, callee_names, call_attr
+from ..match import Code
 
 META = {
     'explanation': (
@@ -314,5 +315,144 @@ def target_default(ctx):
     return res
 
 
-RULES = [final_reset, reset_before_apply, reset_covers, one_sample,
+def trial_record(ctx):
+    from ..match import find, find_seq
+    P = ctx.P
+    res = Result('TRIAL-RECORD', 'each trial: apply perturbation(s), then the '
+                 'compensators, then evaluate; the row records '
+                 'perturbation.value (the value applied), the operand values '
+                 'just evaluated and the compensator values after the run')
+    for f in _appliers(P):
+        res.saw(f)
+        bad = None
+        for p in paths(f, loop_iters=(1,)):
+            seq = [call_attr(e) for e in p.events if e.kind == 'call']
+            if 'apply' not in seq:
+                continue
+            try:
+                ia = max(i for i, c in enumerate(seq) if c == 'apply')
+                ic = seq.index('apply_compensators')
+                ie = seq.index('evaluate')
+                ip = max(i for i, c in enumerate(seq) if c == 'append')
+            except ValueError:
+                bad = 'a trial path lacks apply_compensators / evaluate / ' \
+                      'append'
+                break
+            if not ia < ic < ie < ip:
+                bad = (f'order in the trial is {seq[min(ia, ic, ie):ip + 1]}: '
+                       f'expected apply < apply_compensators < evaluate < '
+                       f'record')
+                break
+        if bad:
+            res.fail(ctx.finding('TRIAL-RECORD', f, f.node, f'{f.qual}: {bad}',
+                                 construct=f'{f.qual} trial order'))
+        else:
+            res.ok(f'{f.qual}: apply < compensate < evaluate < record')
+        # recorded perturbation value
+        recs = [n for n in ast.walk(f.node) if isinstance(n, ast.Attribute)
+                and n.attr == 'value' and isinstance(n.value, ast.Name)
+                and n.value.id == 'perturbation']
+        srcs = [n for n in ast.walk(f.node)
+                if isinstance(n, (ast.Dict, ast.Assign))]
+        if recs and (find(f, "{'perturbation_type': str($p.variable),"
+                             " 'perturbation_value': $p.value}") or
+                     find_seq(f, ['$k = str($p.variable)',
+                                  '$row[$k] = $p.value'])):
+            res.ok(f'{f.qual}: row records perturbation.value')
+        else:
+            res.fail(ctx.finding('TRIAL-RECORD', f, f.node,
+                                 f'{f.qual}: the row does not record '
+                                 f'perturbation.value',
+                                 construct=f'{f.qual} recorded value'))
+        if find_seq(f, ['$ov = self.tolerancing.evaluate()',
+                        'zip(self.operand_names, $ov)',
+                        '$cr = self.tolerancing.apply_compensators()',
+                        '$row.update($cr)', '$all.append($row)']):
+            res.ok(f'{f.qual}: operand values and compensator values of this '
+                   f'trial are recorded')
+        else:
+            res.fail(ctx.finding('TRIAL-RECORD', f, f.node,
+                                 f'{f.qual}: operand / compensator values '
+                                 f'recorded are not those of this trial',
+                                 construct=f'{f.qual} recorded results'))
+    ac = P.func('Tolerancing.apply_compensators')
+    res.saw(ac)
+    okc = False
+    for p in paths(ac, loop_iters=(1,)):
+        seq = [(e.kind, unparse(e.node)[:60]) for e in p.events]
+        txt = ' | '.join(x for _, x in seq)
+        if 'self.compensator.run()' in txt:
+            okc = txt.index('self.compensator.operands') < \
+                txt.index('self.compensator.run()') if \
+                'self.compensator.operands' in txt else False
+    if okc and find(ac, 'self.compensator.operands = self.operands') and \
+            find(ac, "{f'C{i}: {str(var)}': var.value for i, var in "
+                     "enumerate(self.compensator.variables)}"):
+        res.ok('apply_compensators: same operands, run, then read the '
+               'variables')
+    else:
+        res.fail(ctx.finding('TRIAL-RECORD', ac, ac.node,
+                             'compensation does not optimise the tolerancing '
+                             'operands, or records values from before the run',
+                             construct='apply_compensators'))
+    cr = P.func('CompensatorOptimizer.run')
+    go = P.func('CompensatorOptimizer.get_optimizer')
+    res.saw(cr), res.saw(go)
+    if find_seq(cr, ['$o = self.get_optimizer()(self)',
+                     'return $o.optimize(tol=self.tol)']) and \
+            find(go, 'return self._optimizer_map[self.method]'):
+        res.ok('CompensatorOptimizer.run optimises itself with the chosen '
+               'optimiser')
+    else:
+        res.fail(ctx.finding('TRIAL-RECORD', cr, cr.node,
+                             'CompensatorOptimizer.run does not optimise this '
+                             'problem', construct='CompensatorOptimizer.run'))
+    ev_ = P.func('Tolerancing.evaluate')
+    res.saw(ev_)
+    if find(ev_, 'return [$o.value for $o in self.operands]'):
+        res.ok('evaluate = value of every operand, in order')
+    else:
+        res.fail(ctx.finding('TRIAL-RECORD', ev_, ev_.node,
+                             'evaluate is not the list of operand values',
+                             construct='Tolerancing.evaluate'))
+    # range sampler: k-th sample is the k-th value of linspace(start, end, n)
+    rs = P.func('RangeSampler.sample')
+    ri = P.func('RangeSampler.__init__')
+    res.saw(rs), res.saw(ri)
+    if find(ri, 'self.values = np.linspace(start, end, steps)') and \
+            find(ri, 'self.index = 0') and find(ri, 'self.size = steps') and \
+            find_seq(rs, ['$v = self.values[self.index]', 'return $v']) and \
+            find(rs, 'self.index += 1'):
+        rd = find(rs, '$v = self.values[self.index]')[0][0]
+        inc = find(rs, 'self.index += 1')[0][0]
+        if rd.lineno < inc.lineno:
+            res.ok('RangeSampler: values = linspace(start, end, steps), one '
+                   'per call in order, size = steps')
+        else:
+            res.fail(ctx.finding('TRIAL-RECORD', rs, rs.node,
+                                 'RangeSampler skips its first value',
+                                 construct='RangeSampler.sample order'))
+    else:
+        res.fail(ctx.finding('TRIAL-RECORD', rs, rs.node,
+                             'RangeSampler no longer walks linspace(start, '
+                             'end, steps) one value per call',
+                             construct='RangeSampler'))
+    ds = P.func('DistributionSampler.sample')
+    di = P.func('DistributionSampler.__init__')
+    res.saw(ds), res.saw(di)
+    if find(ds, 'np.random.normal(**self.params)') and \
+            find(ds, 'np.random.uniform(**self.params)') and \
+            find(di, 'np.random.seed(seed)') and \
+            find(di, 'self.params = params'):
+        res.ok('DistributionSampler: seeded at construction, draws with its '
+               'own parameters')
+    else:
+        res.fail(ctx.finding('TRIAL-RECORD', ds, ds.node,
+                             'DistributionSampler does not seed / draw with '
+                             'its own parameters',
+                             construct='DistributionSampler'))
+    return res
+
+
+RULES = [trial_record, final_reset, reset_before_apply, reset_covers, one_sample,
          target_default]
